@@ -210,15 +210,20 @@ pub fn run(op: &str, a: &[&str]) -> Option<String> {
             ])
         }
         // ICMPv4: a whole message whose header re-encodes to the same bytes
-        ("ck.w.icmp4", [m]) => {
+        ("ck.w.icmp4", [m]) | ("ck.w.icmp4", [m, _]) => {
             let b = hex(m)?;
+            // optional second argument: bytes behind the message that the checksum functions are handed as (part
+            // of the) payload although the decoder would not accept them there (a timestamp message is 20 bytes)
+            let extra = if a.len() == 2 { hex(a[1])? } else { Vec::new() };
             let s = Icmpv4Slice::from_slice(&b).ok()?;
             let hdr = s.header();
             let hl = hdr.header_len();
             if hdr.to_bytes().as_slice() != &b[..hl] {
                 return Some(format!("reencode-differs({})", to_hex(&hdr.to_bytes())));
             }
-            let pl = s.payload();
+            let mut plv = s.payload().to_vec();
+            plv.extend_from_slice(&extra);
+            let pl = &plv[..];
             let mut upd = hdr.clone();
             upd.checksum = 0;
             upd.update_checksum(pl);
